@@ -50,7 +50,7 @@ ASSUMPTIONS = [
     "T_Data_Tag_Group: at most one delivery and no exception (the statement does not place it)",
     "'handed to the interface' = the call of the interface's send_cemi for that frame; send_cemi raises only CommunicationError / ConversionError",
     "a confirmation arriving exactly at the instant the confirmation timeout fires may go either way",
-    "when sends overlap, any confirmation that arrived after a send's own hand-off may complete it (the statement speaks of 'a confirmation frame'); the completeness clause (confirmation arrived in time => success) is asserted only for a send during whose lifetime no other send was handed over",
+    "when sends overlap, any confirmation that arrived after a send's own hand-off may complete it (the statement speaks of 'a confirmation frame'); the completeness clause (positive confirmation in time => success) is asserted for a confirmation that arrives while the send is waiting (after its hand-off returned), and for one that arrives during its hand-off only if no other send is handed over before that hand-off returns",
 ]
 
 OWN_DEFAULT = 0x11FA  # 1.1.250
@@ -571,17 +571,33 @@ def judge_schedule(ctx, case: dict, rec, injected, out, escaped) -> dict:
             continue
         if done["t"] > ret["t"] + TIMEOUT + EPS:
             ctx.fail("C14:send:confirmation-error-late", inp, f"send {i}: hand-off returned at {ret['t']}, ConfirmationError at {done['t']}")
-        in_time = [c for c in after if c["t"] < ret["t"] + TIMEOUT - EPS]
-        if in_time:
-            if disturbed:
-                facts["lost_under_overlap"] += 1
-            else:
-                ctx.fail(
-                    "C14:send:confirmation-lost",
-                    inp,
-                    f"send {i} (no other hand-off during its lifetime) handed over at order {entry['order']} t={entry['t']}, hand-off returned t={ret['t']}; "
-                    f"confirmation arrived at order {in_time[0]['order']} t={in_time[0]['t']} but the send failed with ConfirmationError at t={done['t']}",
-                )
+        # completeness, within what one shared confirmation event guarantees also for overlapping sends:
+        # (1) a positive confirmation that arrives while this send is already waiting (after its hand-off returned,
+        #     before its timeout) completes it, whatever other sends were handed over before or after;
+        # (2) one that arrives during the hand-off completes it unless another send was handed over between
+        #     the confirmation and the return of this hand-off (that case is only counted).
+        in_time = [c for c in after if c["kind"] == "con" and c["t"] < ret["t"] + TIMEOUT - EPS]
+        waiting = [c for c in in_time if c["order"] > ret["order"]]
+        during = [c for c in in_time if c["order"] < ret["order"] and not any(c["order"] < q["entry"]["order"] < ret["order"] for q in others)]
+        if waiting:
+            c = waiting[0]
+            started = [j for j, q in enumerate(rec) if j != i and q["entry"] is not None and ret["order"] < q["entry"]["order"] < c["order"]]
+            ctx.fail(
+                "C14:send:waiting-send-not-completed-by-confirmation" if started else "C14:send:confirmation-lost",
+                inp,
+                f"send {i} handed over at order {entry['order']} t={entry['t']}, hand-off returned at order {ret['order']} t={ret['t']}"
+                + (f"; send(s) {started} handed over meanwhile" if started else "")
+                + f"; positive L_Data.con arrived at order {c['order']} t={c['t']} while send {i} was waiting, but it failed with ConfirmationError at t={done['t']}",
+            )
+        elif during:
+            ctx.fail(
+                "C14:send:confirmation-lost",
+                inp,
+                f"send {i} handed over at order {entry['order']} t={entry['t']}, hand-off returned at order {ret['order']} t={ret['t']}; positive L_Data.con arrived during the hand-off "
+                f"at order {during[0]['order']} t={during[0]['t']} (no other hand-off before the return) but the send failed with ConfirmationError at t={done['t']}",
+            )
+        elif in_time:
+            facts["lost_under_overlap"] += 1
     if out["counters"] != (n_ok, n_err):
         ctx.fail("C14:send:counters", inp, f"cemi_count_outgoing / _error = {out['counters']}, outcomes ok / failed = {(n_ok, n_err)}")
     n_ind = sum(1 for e in injected if e["kind"] == "ind")
@@ -669,8 +685,24 @@ def _sched_enum_shard(ctx, delay: float, yields: int) -> None:
 # ---------------------------------------------------------------------------
 
 
+def _sched_enum2_shard(ctx, delay_a: float, delay_b: float) -> None:
+    """Two sends, one or two confirmations: B starts while A is still in send_cemi, while A waits, or after A - enumerated."""
+    n = nt = 0
+    for t_b, k_b in ((0.5, 0), (0.5, 1), (0.5, 3), (1.0, 0), (1.5, 0), (2.5, 2), (3.5, 0), (4.0, 0)):
+        for t in (0.5, 1.0, 2.0, 2.5, 3.5, 4.5, 6.0):
+            for k in (0, 2):
+                for kinds in (("con",), ("con_err",), ("con", "con"), ("con_err", "con")):
+                    events = [{"at": [t + 0.5 * j, k], "kind": kd, "of": j} for j, kd in enumerate(kinds)]
+                    case = {"sends": [{"at": [0.5, 0], "delay": delay_a, "yields": 1}, {"at": [t_b, k_b], "delay": delay_b, "yields": 0}], "events": events}
+                    f = check_schedule(ctx, case)
+                    n += 1
+                    if f and (f["near"] or f["overlap"]):
+                        nt += 1
+    ctx.bulk(n, nt, "enum-2sends")
+
+
 def _shard(ctx, kind: str, *args) -> None:
-    {"matrix": _matrix_shard, "other": _other_codes_shard, "enum": _sched_enum_shard, "seq": _seq_shard, "sched": _sched_shard}[kind](ctx, *args)
+    {"matrix": _matrix_shard, "other": _other_codes_shard, "enum": _sched_enum_shard, "enum2": _sched_enum2_shard, "seq": _seq_shard, "sched": _sched_shard}[kind](ctx, *args)
 
 
 def run(ctx) -> None:
@@ -678,6 +710,7 @@ def run(ctx) -> None:
     jobs += [("matrix", code, group) for code in (0x29, 0x2E, 0x11) for group in (True, False)]
     jobs += [("other",)]
     jobs += [("enum", d, y) for d in (0.0, 0.5, 3.0) for y in (0, 1, 3)]
+    jobs += [("enum2", da, db) for da in (0.0, 0.5, 1.0) for db in (0.0, 0.5, 1.0)]
     parallel(ctx, _shard, jobs)
     ctx.exhaustive = False
     ctx.notes["matrix_exhaustive"] = "message code x address type x {0, own, foreign} x 256 TPCI octets; all non-L_Data first octets"
